@@ -322,6 +322,15 @@ FIXED_LIBS = [
      {"t": "same", "of": 3},
      {"t": "icomment", "comment": "% x", "line": 3, "raw": "r"},
      {"t": "same", "of": 0}],
+    # a library as parsed from a file this writer produced earlier: its warning lines are free-text comments now,
+    # directly above the failed blocks (which get their warning again); one very long key
+    [{"t": "icomment", "comment": "% WARNING Parsing failed for the following 2 lines.", "line": 0, "raw": "r"},
+     {"t": "failed", "raw": "@a{x,\n y", "line": 1},
+     {"t": "icomment", "comment": "% FAILED (1 lines)", "line": 3, "raw": "r"},
+     {"t": "failed", "raw": "@b{z", "line": 4},
+     {"t": "entry", "type": "article", "key": "k", "fields": [["doi", "{1}", 6], ["k" * 70, "{2}", 7], ["title", "{T}", 8]], "line": 5, "raw": "r"},
+     {"t": "icomment", "comment": "% WARNING Parsing failed for the following 1 lines.", "line": 9, "raw": "r"},
+     {"t": "failed", "raw": "@c{", "line": 10}],
     # every kind of failed block and instances of application-defined subclasses of the model classes
     [{"t": "entry", "type": "article", "key": "k", "fields": [["a", "{1}", 0], ["title", "{T}", 1]], "line": 0, "raw": "r", "sub": True},
      {"t": "dupfield", "entry": {"type": "misc", "key": "d", "fields": [["a", "{1}", 3], ["a", "{2}", 3]], "line": 3, "raw": "@misc{d, a = {1}, a = {2}}"}, "keys": ["a"]},
@@ -334,7 +343,7 @@ FIXED_LIBS = [
 
 def w_grid(acc):
     for li, lib in enumerate(FIXED_LIBS):
-        for vc in list(range(0, 41)) + ["auto"]:
+        for vc in list(range(0, 41)) + ["auto", 66, 100, 140]:
             for indent in ("\t", "", "  ", "--"):
                 for comma in (False, True):
                     for sep in ("\n\n", "", "\n-----\n"):
